@@ -329,8 +329,8 @@ when it is a DF17/DF18 BDS 0,5 / 0,6 message the call `decode_position(me, times
 None)` is C06's model `CprState.decodePosition` on the aircraft map threaded through the loop (`cprReportOf`
 extracts parity, `lat_cpr`, `lon_cpr` from the decoded JSON and the cache key from the AA field); the position
 attached (exact rationals, as canonical text) is the `pos` input of C12's view `recordOfFrame`; then `update`.
-`dist` stands for `dist_haversine` and `g` for the windows and gates (the driver runs `Gates.source`): every
-theorem holds for every `dist`, `g`, receiver reference and history.
+`dist` stands for `dist_haversine` and `g` for the windows and gates (the driver runs `Gates.source`): all
+statements are for every `dist`, `g`, receiver reference and history.
 
 `pipeline_eq_runFrames` factors the loop into "positions by C06's batch model `decodePositions`" followed by
 "C12's frame-level table `runFrames`" (`annotate`), so every `frames_*` theorem above — proved for EVERY position
